@@ -50,14 +50,14 @@ NAMES = ["a", "b", "c", "d", "e"]
 
 @st.composite
 def cases(draw):
-    tree = {"a.py": TEXTS[0], "b.py": TEXTS[3], "c.py": TEXTS[4], "pk/": None, "pk/__init__.py": "", "pk/m.py": TEXTS[2]}
+    tree = {"a.py": TEXTS[0], "b.py": TEXTS[3], "c.py": TEXTS[4], "pk/": None, "pk/__init__.py": "", "pk/m.py": TEXTS[2], "spare.txt": TEXTS[0]}
     if draw(st.booleans()):
         tree["d.py"] = draw(st.sampled_from(TEXTS[:11]))
     n = draw(st.integers(6, 16))
     ops = []
     autoimport = draw(st.integers(0, 2)) == 0
     for _ in range(n):
-        r = draw(st.integers(0, 21))
+        r = draw(st.integers(0, 24))
         if autoimport and 12 <= r <= 18 and r != 17 and draw(st.integers(0, 5)) > 0:
             # the auto-import index is only compared up to the first outside change (recorded finding): mostly rope-side histories
             r = {12: 4, 13: 5, 14: 6, 15: 8, 16: 7, 18: 9}[r]
@@ -91,6 +91,17 @@ def cases(draw):
             ops.append(["mkpackage", a])
         elif r == 18:
             ops.append(["ext_rmtree", a, 0, f])
+        elif r == 22:
+            # a file that is not a Python file becomes one (settings.py.dist -> settings.py) or the other way round, through rope
+            ops.append(["retype", a, b])
+        elif r == 23:
+            # an outside edit that leaves the file OLDER than rope remembers it (a backup restored with its timestamps)
+            ops.append(["ext_write_older", a, b, f])
+        elif r == 24:
+            # motif: the module c.py imports disappears, c.py is looked at, then a non-Python file is renamed into its place
+            ops.append(["remove", 0, 0, 0])
+            ops.append(["query", 0])
+            ops.append(["retype", 0, 0])
         elif r == 20:
             # motif: move a file, re-create its old path from outside, look at it, undo the move onto it
             ops.append(["move", a, b, 0])
@@ -252,6 +263,7 @@ def evaluate(case, env):
     root = core.fresh_dir("c13")
     fsmodel.write_tree(root, case["tree"])
     clock = [2_000_000_000]
+    old_clock = [1_000_000_000]  # timestamps in the past (before every file of the tree), still all different
 
     def tick(path):
         clock[0] += 5
@@ -393,6 +405,32 @@ def evaluate(case, env):
                     tick(os.path.join(root, p))
                     project.validate(project.root)
                     feats.add("external")
+                elif kind == "retype":
+                    txts = [p for p in files if p.endswith(".txt")]
+                    if txts and op[1] % 3:
+                        p = txts[op[1] % len(txts)]
+                        target = os.path.join(os.path.dirname(p), NAMES[op[2] % len(NAMES)] + ".py").lstrip("/")
+                    elif pyfiles:
+                        p = pyfiles[op[1] % len(pyfiles)]
+                        target = p[:-3] + ".txt"
+                    else:
+                        p = target = None
+                    if p and not os.path.exists(os.path.join(root, target)):
+                        project.get_resource(p).move(target)
+                        focus[:] = [target, p]
+                        feats.add("retype")
+                    else:
+                        mutated = False
+                elif kind == "ext_write_older" and pyfiles:
+                    p = pick(pyfiles, op[1], op)
+                    focus[0] = p
+                    with open(os.path.join(root, p), "w") as f:
+                        f.write(TEXTS[op[2] % len(TEXTS)])
+                    old_clock[0] += 5
+                    os.utime(os.path.join(root, p), (old_clock[0], old_clock[0]))
+                    project.validate(project.root)
+                    feats.add("external")
+                    feats.add("external_older_mtime")
                 elif kind == "ext_write_moved":
                     cands = [p for p in pyfiles if last_moved is not None and (p == last_moved or p.startswith(last_moved + "/"))]
                     if cands:
